@@ -10,7 +10,13 @@ ops (kind = `1s 1u 2s 2u 3s 3u 4s 4u 8s`, or `f` for the float field where noted
 * `getat kind idx len`       (kind may be `f`) getter on the current array with DataLen = len → `value|def idx'`
 * `putf p [undef]`           float bit patterns as decimal integers          → appended bytes (hex)
 * `getf hex`                                                                 → pattern (decimal) | `def`
-* `qz kind mv ev mp ep`      v = mv·2^ev, precision = mp·2^ep (exact)        → `near` | bytes of the exact code
+* `qz kind mv ev mp ep`      v = mv·2^ev, precision = mp·2^ep (exact)        → bytes of the exact code where the property
+                             determines it (1..4-byte field, quotient not within 2^-40 of a tie) | `stored`
+* `chk kind mv ev mp ep hex` judge of the bytes the library stored for that `qz` (`acceptsQ`, slack `slackQ`) → `ok` | `bad`
+* `chkx kind v hex`          the same for an integer `v` at precision 1 with no slack (8-byte integer stream) → `ok` | `bad`
+
+`put 8s v` with `v` in range and not the NA marker answers `stored`: the property allows any code within one
+step there; the following `chkx` line judges what the library stored.
 -/
 namespace Driver.Scaled
 open N2k.Scaled Driver
@@ -42,25 +48,36 @@ def quot (mv ev mp ep : Int) : Rat :=
   let s := ev - ep
   if 0 ≤ s then mkRat (mv * 2 ^ s.toNat) mp.toNat else mkRat mv (mp.toNat * 2 ^ (-s).toNat)
 
-def absQ (q : Rat) : Rat := if 0 ≤ q then q else -q
-
-/-- is the exact quotient so close to a rounding boundary (a tie `m+1/2`; an integer for the truncating
-8-byte field) — but not on it — that the double quotient may fall on the other side?
-Criterion: distance ≤ 2^-40 · |q|. -/
-def nearBoundary (w : Nat) (q : Rat) : Bool :=
+/-- does the property leave the stored code open? Always for the 8-byte field (one step: two or three
+candidates); for the others at an exact tie or within 2^-40 (relative) of one, where the double quotient may
+fall on either side. Otherwise exactly one code is within half a step and the bytes are compared. -/
+def codeOpen (w : Nat) (q : Rat) : Bool :=
+  if w = 8 then true else
   let a := absQ q
   let m : Rat := (a.floor : Int)
-  let d := if w = 8 then (if a - m ≤ m + 1 - a then a - m else m + 1 - a) else absQ (a - (m + 1 / 2))
-  decide (0 < d) && decide (d * 1099511627776 ≤ a)
+  let d := absQ (a - (m + 1 / 2))
+  decide (d * 1099511627776 ≤ a)
+
+/-- `put 8s v` with an in-range, available `v`: the stored code is open within one step -/
+def put8Open (w : Nat) (s : Bool) (v undef : Vd) : Bool :=
+  match v with
+  | .int k => w == 8 && !(v.ceq undef) && !(v.ceq (.int (-1000000000))) &&
+      decide (loBound w s ≤ k) && decide (k < orCode w s)
+  | _ => false
+
+def verdict (b : Bool) : String := if b then "ok" else "bad"
 
 def step (data : List Nat) (w : List String) : List Nat × String :=
   let bad := (data, "bad-op")
   match w with
   | ["put", k, v] => match kind? k, vd? v with
-    | some (w, s), some v => (data, bytesOut (addInt w s v (.int (-1000000000))))
+    | some (w, s), some v =>
+      if put8Open w s v (.int (-1000000000)) then (data, "stored")
+      else (data, bytesOut (addInt w s v (.int (-1000000000))))
     | _, _ => bad
   | ["put", k, v, u] => match kind? k, vd? v, vd? u with
-    | some (w, s), some v, some u => (data, bytesOut (addInt w s v u))
+    | some (w, s), some v, some u =>
+      if put8Open w s v u then (data, "stored") else (data, bytesOut (addInt w s v u))
     | _, _, _ => bad
   | ["get", k, h] => match kind? k, hexBytes? h with
     | some (w, s), some bs => match getDouble w s bs bs.length 0 with
@@ -96,9 +113,20 @@ def step (data : List Nat) (w : List String) : List Nat × String :=
     | some (w, s), some mv, some ev, some mp, some ep =>
       if mp ≤ 0 then bad else
       let q := quot mv ev mp ep
-      if nearBoundary w q then (data, "near")
+      if codeOpen w q then (data, "stored")
       else (data, bytesOut (addDouble w s false false (.int (frontQ w q))))
     | _, _, _, _, _ => bad
+  | ["chk", k, mv, ev, mp, ep, h] =>
+    match kind? k, mv.toInt?, ev.toInt?, mp.toInt?, ep.toInt?, hexBytes? h with
+    | some (w, s), some mv, some ev, some mp, some ep, some bs =>
+      if mp ≤ 0 ∨ bs.length ≠ w then bad else
+      let q := quot mv ev mp ep
+      (data, verdict (acceptsQ w s q (slackQ q) (getBufDouble w s bs)))
+    | _, _, _, _, _, _ => bad
+  | ["chkx", k, v, h] => match kind? k, v.toInt?, hexBytes? h with
+    | some (w, s), some v, some bs =>
+      if bs.length ≠ w then bad else (data, verdict (acceptsQ w s (v : Rat) 0 (getBufDouble w s bs)))
+    | _, _, _ => bad
   | _ => bad
 
 def main : IO Unit := loop step ([] : List Nat)
